@@ -1116,6 +1116,20 @@ fn emit_fn(unit: &Unit, src: &SrcFile, f: &FnSpec, threaded: &BTreeSet<String>) 
 }
 
 fn emit_fn_inner(unit: &Unit, src: &SrcFile, f: &FnSpec, threaded: &BTreeSet<String>) -> R<Emitted> {
+    if f.verbatim {
+        let (fpath, _) = split_closure_path(&f.path);
+        let segs: Vec<&str> = fpath.split("::").collect();
+        let Some(Found::Fn { whole, sig, .. }) = find_fn_in_items(&src.ast.items, &segs) else {
+            refuse!("anchor lost: fn `{}` not found in {}", f.path, src.rel);
+        };
+        let (lo, hi) = br(whole);
+        // skip outer attributes / doc comments: start at the first token of the signature proper
+        let _ = sig;
+        let text = src.text[lo..hi].to_string();
+        let n = text.matches('\n').count() + 1;
+        let l0 = src.line_of(lo);
+        return Ok(Emitted { text: text.clone(), line_src: (0..n).map(|i| Some(l0 + i)).collect(), rules: vec![], src_lo_line: l0, src_hi_line: src.line_of(hi - 1), original: text, arms: vec![] });
+    }
     let (fpath, ck) = split_closure_path(&f.path);
     let segs: Vec<&str> = fpath.split("::").collect();
     let Some(found) = find_fn_in_items(&src.ast.items, &segs) else {
